@@ -376,6 +376,9 @@ fn handle(sh: &Arc<Shared>, mut rq: Request, c: usize, m: usize) {
             let _ = rq.as_reader();
         });
     }
+    if plan.hold_phase > 0 {
+        world::wait_phase(plan.hold_phase);
+    }
     if !plan.read.is_empty() || plan.to_eof || plan.upto.map_or(false, |u| u > 0) {
         let mut off = 0usize;
         let mut sizes = plan.read.clone();
